@@ -4,7 +4,7 @@
 # the demonstration fails with it and passes without it.
 set -u
 ID="$1"; DEMO="$2"; CRATE="$3"; TEST="$4"; FLAGS="${5:-}"
-WT=/tmp/wt-$ID
+WT=${SEED_WT:-/tmp/wt-$ID}
 cd "$WT" || exit 2
 export CARGO_NET_OFFLINE=true RUST_BACKTRACE=0
 git checkout -q -- . ; rm -rf crates/$CRATE/tests/$TEST.rs
